@@ -189,9 +189,20 @@ end
     `__setstate__` = `__dict__.update(state)` on a bare `cls.__new__(cls)` plus the bookkeeping
     entries `__init__` creates: `_instantiated = True` and `_none_fields` (carried by the state
     when non-empty, since 7925862; an empty set otherwise).  (`__getstate__` lists the fields in class-body order, then the extras; the
-    order of `__dict__` is not observable through `==`, `str` or `hash` and is not modelled.) -/
+    order of `__dict__` is not observable through `==`, `str` or `hash`: `pickleOrdI` below adds it.) -/
 def pickleI (S : SetOrder) (x : Inst) : Inst :=
   { cls := x.cls, attrs := rebuildAttrs S x.attrs, instantiated := true, nones := x.nones, undef := x.undef }
+
+/-- the order of the unpickled `__dict__`: `__getstate__` lists the declared fields that are set in
+    class-body order, then the additional properties in `__dict__` order; `__setstate__` is
+    `__dict__.update(state)` on a bare object -/
+def stateOrder (fields : List String) (attrs : Attrs) : Attrs :=
+  fields.filterMap (fun f => (lookup f attrs).map (fun v => (f, v)))
+    ++ attrs.filter (fun kv => !fields.contains kv.1)
+
+/-- the pickle round trip with the order of the new `__dict__` -/
+def pickleOrdI (fields : List String) (S : SetOrder) (x : Inst) : Inst :=
+  { pickleI S x with attrs := stateOrder fields (pickleI S x).attrs }
 
 /-- `__deepcopy__`: an immutable structure is returned as is; otherwise every `__dict__` entry is
     deep-copied and re-assigned through `__setattr__` under `_skip_validation`, which drops a
